@@ -32,8 +32,8 @@ META = {
             "The index hash (SHA-256 of the size pairs in C) is modelled as comparing the lists (collision-freeness assumed, stated). "
             "Hypotheses of the locality/prefix theorems on the abstract payload decoder: PayloadLocal, PayloadBounded; both are PROVED for the "
             "concrete raw LZMA1/LZMA2 chain model (Lemmas/LzmaCausal*.lean, XzStd.lean), so the *_std theorems have no hypothesis left. Not theorems: rejection of a flip in a Block Header "
-            "Size byte or the Index Indicator (would need a CRC32 coincidence to be excluded), flips in later Streams / Stream Padding under "
-            "CONCATENATED, completeness of the grammar, whole-file form of the payload-damage/collision statement. Multi-byte damage is covered only up to a Check collision. The threaded decoder is "
+            "Size byte or the Index Indicator (would need a CRC32 coincidence to be excluded), completeness of the grammar, whole-file form of "
+            "the payload-damage/collision statement (flips in later Streams / Stream Padding under CONCATENATED are covered by header_bitflip_rejected_partial). Multi-byte damage is covered only up to a Check collision. The threaded decoder is "
             "covered by the direct oracle only. Known finding: .lz trailing-data rule (findings/C05-lz-trailing-data-rule.json).",
     "technique": "Lean 4 proof over an executable model + differential correspondence + exhaustive single-fault injection",
 }
@@ -480,10 +480,12 @@ def judge(f, desc, res):
 TASK_TIMES = []
 
 
-def run_task(exe, f, ops, nexp, reuse=False):
+def run_task(exe, f, ops, nexp, reuse=False, slice_spec=None):
     """`reuse`: the C harness runs every lzma_stream case of this task on one persistent, re-initialised handle (no
     lzma_end in between); the answers must be those of fresh handles, i.e. the model's."""
     head = ["base " + vlib.hexs(f["data"]), "orig " + vlib.hexs(f["plain"])] + (["reuse 1"] if reuse else [])
+    if slice_spec:
+        head.append("slice " + slice_spec)      # input fed in pieces across lzma_code() calls (ignored by the model)
     t0 = time.time()
     rc, out, err = vlib.run_lines([exe], head + ops, timeout=3000)
     TASK_TIMES.append((time.time() - t0, os.path.basename(exe), f["name"][:50], nexp))
@@ -492,8 +494,10 @@ def run_task(exe, f, ops, nexp, reuse=False):
     return out[len(head):], rc, err
 
 
-def replay_dict(f, desc, res_c, res_m, what):
+def replay_dict(f, desc, res_c, res_m, what, slice_spec=None):
     api, flags, kind, pos, edit = desc[:5]
+    if slice_spec is None and len(desc) > 6 and desc[6] != "0":
+        slice_spec = desc[6]
     if kind == "w":
         op = "one %s %d w" % (api, flags)
     elif kind in ("f", "t"):
@@ -503,7 +507,7 @@ def replay_dict(f, desc, res_c, res_m, what):
     return {"kind": what, "file": f["name"], "format": f["fmt"], "base_hex": f["data"].hex(), "orig_hex": f["plain"].hex(),
             "api": api, "flags": flags, "damage": {"kind": kind, "pos": pos, "edit": edit,
                                                    "field": L.field_at(f["segs"], pos // 8 if kind == "f" else pos) if kind != "w" else None},
-            "op": op, "impl": res_c, "model": res_m,
+            "op": op, "ops": (["slice " + slice_spec, op] if slice_spec else [op]), "impl": res_c, "model": res_m,
             "how_to_replay": "printf 'base <base_hex>\\norig <orig_hex>\\n<op>\\n' | .cache/harness-asan/c05   (answer: tag ret consumed notices outlen lcp crc64)"}
 
 
@@ -570,6 +574,45 @@ def run(ctx):
             ctx.count("stream-check:" + L.CHECK_NAMES.get(c, str(c)))
     for (fi, f) in crafted_src:
         tasks += plan_crafted(ctx, files, fi, f)
+    # input slicing: systematic splits of the undamaged small files, and damaged Stream Padding in all 2-/3-piece splits
+    smalls = [(fi, f) for fi, f in enumerate(files) if not f.get("large") and not f.get("crafted") and len(f["data"]) <= 2048]
+    for (fi, f) in smalls if not quick else smalls[:10]:
+        tasks += plan_splits(ctx, fi, f)
+        ctx.count("files:systematic-splits")
+    pad_src = sorted([(fi, f) for (fi, f) in smalls if f["fmt"] == "xz" and not f.get("bcj")], key=lambda x: len(x[1]["data"]))
+    multi = [x for x in pad_src if len(x[1]["units"]) > 1]
+    single = [x for x in pad_src if len(x[1]["units"]) == 1 and len(x[1]["plain"]) > 0]
+    for (fi, f) in (multi[:1] + single[:1]) if quick else (multi[:3] + single[:3]):
+        tasks += plan_padding(ctx, files, fi, f)
+    # task-level slicing of the damage sweeps: a seeded part of the tasks feeds every case in pieces; the reference is
+    # the model (whole-buffer semantics) or, for the threaded decoder, a whole-buffer twin of the same task
+    norm, npairs = [], 0
+    for t in tasks:
+        fi, ops, descs = t[:3]
+        sl, pid = None, None
+        api = descs[0][0]
+        if len(descs[0]) == 5 and api != "sbd":
+            n = len(files[fi]["data"])
+            r = ctx.rng.random()
+            if api.startswith("mt"):
+                r = (0.45 + 0.55 * ctx.rng.random()) if r < 0.3 else 0.0    # 30% of the threaded tasks are sliced (each costs a twin)
+            if r < 0.45:
+                sl = None
+            elif r < 0.72:
+                sl = "r %d" % ctx.rng.randrange(1 << 30)
+            elif r < 0.82:
+                sl = "c 2"
+            elif r < 0.92:
+                sl = "k %d" % (ctx.rng.choice((1, 1, 2, 3)) if n <= 400 else ctx.rng.choice((7, 13, 64)))
+            else:
+                sl = "c %d %d" % tuple(sorted((ctx.rng.randrange(1, n + 1), ctx.rng.randrange(1, n + 1)))) if n > 0 else None
+            if sl and api.startswith("mt"):
+                npairs += 1
+                pid = npairs
+                norm.append((fi, ops, descs, None, -pid))
+        norm.append((fi, ops, descs, sl, pid))
+        ctx.count("tasks:sliced-input" if sl else "tasks:whole-input")
+    tasks = norm
     tasks.sort(key=lambda t: -len(t[2]) * (len(files[t[0]]["plain"]) + 2 * len(files[t[0]]["data"]) + 200))
     ctx.log("tasks: %d, cases: %d" % (len(tasks), sum(len(t[2]) for t in tasks)))
 
@@ -581,14 +624,14 @@ def run(ctx):
     reuse = [ctx.rng.random() < 0.5 for _ in tasks]
     ctx.count("tasks:reused-handle", sum(reuse))
     ctx.count("tasks:fresh-handle", len(reuse) - sum(reuse))
-    res_c = vlib.par_map(lambda it: run_task(exe, files[it[1][0]], it[1][1], len(it[1][2]), reuse[it[0]]), list(enumerate(tasks)))
+    res_c = vlib.par_map(lambda it: run_task(exe, files[it[1][0]], it[1][1], len(it[1][2]), reuse[it[0]], it[1][3]), list(enumerate(tasks)))
     ctx.log("C harness done in %.1fs" % (time.time() - t0))
     for ti0, ((out, rc, err), t) in enumerate(zip(res_c, tasks)):
         if out is None:
             # the harness died: find the op
             f = files[t[0]]
             if reuse[ti0]:
-                o2, rc2, e2 = run_task(exe, f, t[1], len(t[2]), False)
+                o2, rc2, e2 = run_task(exe, f, t[1], len(t[2]), False, t[3])
                 if o2 is not None:
                     ctx.violation("harness-abort-reused-handle", {"kind": "implementation aborted (sanitizer/assert/crash) only when the lzma_stream handle is reused without lzma_end",
                                                                    "file": f["name"], "base_hex": f["data"].hex(), "orig_hex": f["plain"].hex(),
@@ -601,7 +644,7 @@ def run(ctx):
                     cur_base = op
                     continue
                 cnt = (int(tt[4]) - int(tt[3])) if tt[0] in ("flips", "truncs") else 1
-                o1, rc1, e1 = run_task(exe, f, ([cur_base, op] if cur_base else [op]), cnt + (1 if cur_base else 0))
+                o1, rc1, e1 = run_task(exe, f, ([cur_base, op] if cur_base else [op]), cnt + (1 if cur_base else 0), False, t[3])
                 if o1 is None:
                     ctx.violation("harness-abort", {"kind": "implementation aborted (sanitizer/assert/crash)", "file": f["name"],
                                                     "base_hex": (cur_base.split()[1] if cur_base else f["data"].hex()), "orig_hex": f["plain"].hex(), "op": op, "stderr": e1}, True)
@@ -613,7 +656,7 @@ def run(ctx):
     if model_ok:
         t0 = time.time()
         mtasks = [(i, t) for i, t in enumerate(tasks) if t[2][0][0] in MODEL_APIS]
-        outs = vlib.par_map(lambda it: run_task(mexe, files[it[1][0]], it[1][1], len(it[1][2]), reuse[it[0]]), mtasks)
+        outs = vlib.par_map(lambda it: run_task(mexe, files[it[1][0]], it[1][1], len(it[1][2]), reuse[it[0]], it[1][3]), mtasks)
         res_m = {}
         for (i, t), (out, rc, err) in zip(mtasks, outs):
             if out is None:
@@ -627,15 +670,31 @@ def run(ctx):
     # judge + compare
     per_field, verdicts = {}, {}
     n_viol, n_mism, compared = 0, 0, 0
+    whole_ref, n_slice_cmp, n_slice_bad = {}, 0, 0
     for ti, (t, (out, _, _)) in enumerate(zip(tasks, res_c)):
         f = files[t[0]]
         mo = res_m.get(ti) if res_m is not None else None
         for k, (desc, line) in enumerate(zip(t[2], out)):
             api, flags, kind, pos, edit = desc[:5]
-            if kind == "b":
-                continue          # a `base` line inside a batch of crafted variants
+            if kind in ("b", "s"):
+                continue          # a `base` / `slice` line inside a batch
             if len(desc) > 5:
                 f = files[desc[5]]
+            case_slice = desc[6] if len(desc) > 6 else None
+            sliced = bool(t[3]) or (case_slice not in (None, "0"))
+            if case_slice == "0":
+                whole_ref[(desc[5], api, flags)] = line
+            elif case_slice is not None:
+                n_slice_cmp += 1
+                ref = whole_ref.get((desc[5], api, flags))
+                if ref is not None and not same_verdict(api, ref, line, f.get("bcj")):
+                    n_slice_bad += 1
+                    if n_slice_bad <= 4:
+                        rd = replay_dict(f, desc, line, ref, "the verdict depends on how the input is sliced across lzma_code() calls")
+                        rd["op"] = None
+                        rd["ops"] = ["slice 0", "one %s %d w" % (api, flags), "slice " + case_slice, "one %s %d w" % (api, flags)]
+                        rd["whole_buffer"] = ref
+                        ctx.violation("slicing-changes-verdict", rd, True)
             res = parse_res(line)
             if res is None:
                 ctx.obligation_broken("unparsable harness line", line)
@@ -644,6 +703,8 @@ def run(ctx):
             ctx.case((f["name"], api, flags, kind, pos, edit), nontrivial=(kind != "w"),
                      sample={"file": f["name"], "api": api, "flags": flags, "damage": [kind, pos], "impl": line} if (ti * 7919 + k) % 50021 == 0 else None)
             ctx.count("%s:%s" % (api.rstrip("0123456789"), cat), table="distribution")
+            if sliced:
+                ctx.count("cases:sliced-input")
             if kind == "f":
                 fld = L.field_at(f["segs"], pos // 8)
                 d = per_field.setdefault(fld, {"cases": 0, "rejected": 0, "accepted_same": 0, "accepted_different": 0, "not_examined": 0})
@@ -660,7 +721,7 @@ def run(ctx):
                 v = verdicts.setdefault("trunc:" + api.rstrip("0123456789"), {})
                 v[cat] = v.get(cat, 0) + 1
             if viol is not None and n_viol < 6:
-                p = ctx.violation(cat, replay_dict(f, desc, line, mo[k] if mo else None, viol), True, key=key)
+                p = ctx.violation(cat, replay_dict(f, desc, line, mo[k] if mo else None, viol, t[3]), True, key=key)
                 if p is not None:
                     n_viol += 1
             if mo is not None:
@@ -671,6 +732,9 @@ def run(ctx):
                 compared += 1
                 if ml == line:
                     continue
+                if sliced and same_verdict(api, ml, line):
+                    ctx.count("correspondence:sliced-rejected-status-only")
+                    continue
                 if f.get("bcj") and not L.is_success(api, res["ret"]):
                     a, b = line.split(), ml.split()
                     if a[:4] == b[:4]:
@@ -679,7 +743,29 @@ def run(ctx):
                 n_mism += 1
                 if n_mism <= 5:
                     ctx.obligation_broken("correspondence C05: model and implementation disagree (%s %s %d, %s %d on %s)" % (f["fmt"], api, flags, kind, pos, f["name"]),
-                                          json.dumps(replay_dict(f, desc, line, ml, "model/implementation disagreement")))
+                                          json.dumps(replay_dict(f, desc, line, ml, "model/implementation disagreement", t[3])))
+    # threaded decoder: sliced task against its whole-buffer twin
+    by_pair = {}
+    for ti, t in enumerate(tasks):
+        if t[4]:
+            by_pair.setdefault(abs(t[4]), {})["whole" if t[4] < 0 else "sliced"] = ti
+    for pid, d in by_pair.items():
+        if "whole" not in d or "sliced" not in d:
+            continue
+        tw, ts = tasks[d["whole"]], tasks[d["sliced"]]
+        f = files[ts[0]]
+        for desc, lw, ls in zip(ts[2], res_c[d["whole"]][0], res_c[d["sliced"]][0]):
+            if desc[2] in ("b", "s"):
+                continue
+            n_slice_cmp += 1
+            if not same_verdict(desc[0], lw, ls, f.get("bcj")):
+                n_slice_bad += 1
+                if n_slice_bad <= 4:
+                    rd = replay_dict(f, desc, ls, lw, "the verdict depends on how the input is sliced across lzma_code() calls")
+                    rd["ops"] = ["slice 0", rd["op"], "slice " + ts[3], rd["op"]]
+                    rd["whole_buffer"] = lw
+                    ctx.violation("slicing-changes-verdict", rd, True)
+    ctx.cov["slicing"] = {"sliced_vs_whole_comparisons": n_slice_cmp, "differences": n_slice_bad}
     ctx.cov["per_field_bitflips"] = per_field
     ctx.cov["truncation_verdicts"] = verdicts
     ctx.cov["correspondence"] = {"compared": compared, "mismatches": n_mism, "model_ran": res_m is not None,
@@ -854,9 +940,10 @@ def replay(ctx, path):
         cases = r["examples"] if "examples" in r else [r]
         plain_len = len(r["orig_hex"]) // 2
         for c in cases:
-            rc, out, err = vlib.run_lines([exe], head + [c["op"]])
-            now = out[2] if len(out) == 3 else None
-            print("op:", c["op"], " impl now:", now, " recorded:", c.get("impl"), " model:", c.get("model"))
+            ops = c.get("ops") or [c["op"]]
+            rc, out, err = vlib.run_lines([exe], head + ops)
+            now = out[-1] if len(out) == 2 + len(ops) else None
+            print("ops:", ops, " impl now:", now, " recorded:", c.get("impl"), " model:", c.get("model"))
             if rc != 0 or now is None:
                 print(err[-500:])
                 bad = True
